@@ -54,13 +54,17 @@ Elem ==
     \* the first message of a file of its own, with a nested type: kept as a mere namespace when only the nested type
     \* is included, at a source path that does not move
     First    |-> [kind |-> "message", parent |-> "", pkg |-> "pkg"],
-    Nested1  |-> [kind |-> "message", parent |-> "First", pkg |-> "pkg"] ]
+    Nested1  |-> [kind |-> "message", parent |-> "First", pkg |-> "pkg"],
+    \* c.proto also declares a message that nothing of the other files uses and that needs a type of e.proto, a file
+    \* only c.proto imports (c.proto and e.proto are the files that can be mere imports of the image, see libImport)
+    RemoteExtra |-> [kind |-> "message", parent |-> "", pkg |-> "pkg"],
+    Deep     |-> [kind |-> "message", parent |-> "", pkg |-> "pkg"] ]
 E == DOMAIN Elem
 \* the file that declares each element
 FileOf == [e \in E |-> IF Elem[e].pkg = "opts" THEN "opts.proto"
                        ELSE IF e = "Lonely" THEN "lonely.proto"
                        ELSE IF e \in {"WithOpt2", "UsesKind", "Payload", "WithAny"} THEN "b.proto"
-                       ELSE IF e = "Remote" THEN "c.proto" ELSE IF e \in {"First", "Nested1"} THEN "d.proto" ELSE "a.proto"]
+                       ELSE IF e \in {"Remote", "RemoteExtra"} THEN "c.proto" ELSE IF e = "Deep" THEN "e.proto" ELSE IF e \in {"First", "Nested1"} THEN "d.proto" ELSE "a.proto"]
 Packages == {"pkg", "opts"}
 \* fields of messages: <<field name, referenced element or "">>
 Fields ==
@@ -71,7 +75,8 @@ Fields ==
     OptMsg |-> {<<"note", "">>},
     WithOpt2 |-> {<<"w2", "">>}, UsesKind |-> {<<"k", "Kind">>}, Payload |-> {<<"p", "">>},
     Holder |-> {<<"extra", "">>}, WithAny |-> {<<"a", "">>}, Remote |-> {<<"r", "">>}, ChainVal |-> {<<"cv", "">>},
-    First |-> {<<"f", "">>}, Nested1 |-> {<<"n", "">>} ]
+    First |-> {<<"f", "">>}, Nested1 |-> {<<"n", "">>},
+    RemoteExtra |-> {<<"deep", "Deep">>}, Deep |-> {<<"dp", "">>} ]
 Messages == DOMAIN Fields
 \* methods: input, output
 MethodIO == [Get |-> <<"In", "Out">>, Other |-> <<"Unrelated", "MapVal">>, Far |-> <<"In", "Remote">>]
@@ -96,9 +101,10 @@ Expand(n) == IF n \in Packages THEN {e \in E : Elem[e].pkg = n} ELSE {n}
 
 \* ------------------------------------------------------------------ filters
 VARIABLES include, exclude, customOptions,
+          libImport, \* c.proto and e.proto belong to a module that is not targeted: they are imports of the image
           knownExt   \* known-extension retention (the default of buf build --type and of buf generate): the extensions of a
                      \* message that is kept are kept with it
-vars == <<include, exclude, customOptions, knownExt>>
+vars == <<include, exclude, customOptions, knownExt, libImport>>
 SmallSubsets(S, n) == {T \in ({{}} \cup {{a} : a \in S} \cup {{a, b} : a \in S, b \in S} \cup
                               (IF n >= 3 THEN {{a, b, c} : a \in S, b \in S, c \in S} ELSE {})) : Cardinality(T) <= n}
 Init == /\ include \in SmallSubsets(Names, MaxNames)
@@ -109,6 +115,8 @@ Init == /\ include \in SmallSubsets(Names, MaxNames)
         /\ customOptions \in BOOLEAN
         \* (retention only matters for a filter that includes something; it is combined with custom options on)
         /\ knownExt \in BOOLEAN /\ (knownExt => customOptions /\ include # {})
+        \* (files as imports are explored on the filters with a single name)
+        /\ libImport \in BOOLEAN /\ (libImport => (customOptions /\ ~knownExt /\ Cardinality(include) + Cardinality(exclude) = 1))
 Next == UNCHANGED vars
 Spec == Init /\ [][Next]_vars
 
@@ -125,7 +133,10 @@ Conflict == \/ I \cap X # {}
             \/ \E m \in I : Elem[m].kind = "method" /\ MethodDropped(m)
             \/ \E x \in I : Elem[x].kind = "extension" /\ ExtDropped(x)
 \* (every file of the schema is a target file of the image, none is an import)
-Roots == IF include = {} THEN {e \in E : e \notin X} ELSE I
+\* an element of a file that is an import of the image
+Import(e) == libImport /\ FileOf[e] \in {"c.proto", "e.proto"}
+\* (without included types everything of the target files that is not excluded is kept; of the imports, what that needs)
+Roots == IF include = {} THEN {e \in E : e \notin X /\ ~Import(e)} ELSE I
 \* direct needs of a kept element, without known-extension retention
 NeedsBase(e) ==
   LET k == Elem[e].kind IN
@@ -162,6 +173,11 @@ NeededImports == {<<FileOf[e], FileOf[n]>> : e \in Kept, n \in E} \cap
                  UNION {{<<FileOf[e], FileOf[n]>> : n \in {x \in Needs(e) : FileOf[x] # FileOf[e]}} : e \in Kept}
 SurvivingFields(m) == IF m \in Kept THEN {f[1] : f \in {g \in Fields[m] : g[2] = "" \/ g[2] \notin X}} ELSE {}
 
+\* Without included types the other elements of an import that is still used may survive as well (nothing names
+\* them, nothing excludes them); whatever survives must still link, so what they need survives with them.
+Optional == IF include = {} /\ ~Conflict THEN Close({e \in E : Import(e) /\ e \notin X /\ FileOf[e] \in {FileOf[k] : k \in Kept}}) \ Survive ELSE {}
+OptionalNeedsNothingExcluded == ~Conflict => Optional \cap X = {}
+
 \* ------------------------------------------------------------------ laws of the intended semantics
 Closed == ~Conflict => \A e \in Kept : Needs(e) \subseteq Kept
 NoExcluded == ~Conflict => Kept \cap X = {} /\ \A m \in Kept \cap Messages : \A f \in Fields[m] : (f[1] \in SurvivingFields(m) /\ f[2] # "") => f[2] \in Kept
@@ -175,6 +191,7 @@ NoConflictWithoutInclude == include = {} => ~Conflict
 KnownExtOnlyAdds == ~Conflict => CloseBase(KeptStart) \subseteq Kept
 KnownExtIsFixpoint == (~Conflict /\ knownExt) => \A m \in Kept : KnownExtNeeds(m) \subseteq Kept
 EmitCase == Emit => PrintT(<<"CASE", ToJson([include |-> include, exclude |-> exclude, customOptions |-> customOptions, knownExt |-> knownExt,
+    libImport |-> libImport, optional |-> Optional,
     conflict |-> Conflict,
     survive |-> IF Conflict THEN {} ELSE Survive,
     shells |-> IF Conflict THEN {} ELSE Shells,
